@@ -101,7 +101,7 @@ def impl_env():
     if _ENV:
         return _ENV
     logging.disable(logging.CRITICAL)
-    from spyne import Application, Service, rpc, Unicode, Integer, Iterable, Fault, Ignored, ComplexModel, ByteArray, AnyDict
+    from spyne import Application, Service, rpc, Unicode, Integer, Iterable, Fault, Ignored, ComplexModel, ByteArray, AnyDict, File
     from spyne.protocol.http import HttpPattern
     from spyne.server.http import HttpRedirect
     from spyne.error import (ResourceNotFoundError, InvalidCredentialsError, RequestNotAllowed,
@@ -214,6 +214,42 @@ def impl_env():
             set_user_headers(ctx)
             return {'empty': (), 'list0': [], 'one': ('a',), 'three': ('a', 1, 2), 'ok': ('a', 1), 'none': None}[mode]
 
+        # ---- return types whose bytes are produced by the out protocol's own to_bytes machinery (HttpRpc as out protocol)
+        @rpc(Unicode, _returns=Unicode(str_format='Hello, {}!'))
+        def fmt(ctx, s):
+            TR.append(['user'])
+            return s or 'J\xfcrgen'
+
+        @rpc(Unicode, _returns=Unicode(format='<%s>'))
+        def fmt2(ctx, s):
+            TR.append(['user'])
+            return s or 'J\xfcrgen'
+
+        @rpc(Unicode, _returns=Unicode(encoding='latin-1'))
+        def enc(ctx, s):
+            TR.append(['user'])
+            return s or 'J\xfcrgen'
+
+        @rpc(Unicode, _returns=ByteArray)
+        def ba(ctx, s):                 # a bare bytes object where a sequence of bytes objects is expected
+            TR.append(['user'])
+            return b'abc'
+
+        @rpc(Unicode, _returns=ByteArray)
+        def bal(ctx, s):
+            TR.append(['user'])
+            return [b'abc', b'de']
+
+        @rpc(Unicode, _returns=File)
+        def fv(ctx, s):
+            TR.append(['user'])
+            return File.Value(data=b'abcdef')
+
+        @rpc(Unicode, _returns=File)
+        def fvl(ctx, s):
+            TR.append(['user'])
+            return File.Value(data=[b'abc', b'def'])
+
         @rpc(Unicode, _returns=ByteArray, _mtom=True)
         def mt(ctx, s):                 # MTOM packaging of the response (Soap11 only)
             TR.append(['user'])
@@ -300,10 +336,13 @@ def impl_env():
 
     apps = {}
 
-    def get_app(proto, chunked, mx, block, wsdl=None, aux=None):
+    def get_app(proto, chunked, mx, block, wsdl=None, aux=None, via_ctor=False):
         # one application per (protocol, ?wsdl variant, auxiliary service): building an Application is expensive and
         # the three transport settings are plain attributes that HttpBase.__init__ stores and every request reads
-        key = (proto, wsdl, aux)
+        # (via_ctor: a directed set of cases hands the settings to the constructor and never touches them afterwards)
+        key = (proto, wsdl, aux) if not via_ctor else (proto, wsdl, aux, 'ctor', chunked, mx, block)
+        if key in apps and via_ctor:
+            return apps[key]
         if key in apps:
             w = apps[key]
             w.chunked, w.max_content_length, w.block_length = chunked, mx, block
@@ -336,7 +375,7 @@ def impl_env():
         def on_ret(ctx):
             os_ = ctx.out_string
             SIDE['sized'] = hasattr(os_, '__len__')
-            if SIDE['sized']:
+            if isinstance(os_, (list, tuple)):
                 SIDE['chunks'] = [len(c) for c in os_]
         w.event_manager.add_listener('wsgi_return', on_ret)
 
@@ -468,6 +507,8 @@ def environ_of(case, doc):
     if case.get('cl') is not None:
         env['CONTENT_LENGTH'] = case['cl']
     env.update(case.get('env') or {})
+    for k in case.get('env_del') or ():
+        env.pop(k, None)
     return env
 
 
@@ -488,7 +529,7 @@ def execute(case, validate=False):
     w = E['get_app'](case['proto'], cfg['chunked'], cfg['max'], cfg['block'],
                      case.get('wsdl') if case['kind'] == 'wsdl' and case.get('wsdl') != 'ok' else None,
                      (('sync-exc' if case.get('aux_on_errors') else 'sync') if case.get('aux') else None)
-                     if case['kind'] == 'rpc' else None)
+                     if case['kind'] == 'rpc' else None, via_ctor=bool(case.get('via_ctor')))
     doc = b'' if case['kind'] == 'wsdl' else request_doc(case)
     env = environ_of(case, doc)
     del TR[:]
@@ -558,7 +599,11 @@ def execute(case, validate=False):
                 # is the server's to report; it goes on to close() the iterable
                 SIDE['body_exception'] = type(e).__name__
                 break
-            TR.append(['chunk', len(c), isinstance(c, bytes)])
+            if isinstance(c, (bytes, str)):
+                TR.append(['chunk', len(c), isinstance(c, bytes)])
+            else:
+                TR.append(['chunk', 0, False])
+                SIDE['odd_chunk'] = type(c).__name__
             body.append(c)
             n += 1
         # PEP 3333: the server calls close() on the iterable, if it has one, however the request ended
@@ -651,6 +696,10 @@ def model_query(case, side, ref):
             else:
                 req['chunks'] = ref.get('chunks', [])
                 req['sized'] = ref.get('sized', False)
+                if m in ('ba', 'fv') and case['proto'] == 'httpout':
+                    # a bare bytes body: iterated as ints when chunked (known finding), refused by the join otherwise
+                    req['dumpFails'] = True
+                    req['chunks'], req['sized'] = [], False
                 if m == 'mt':           # (MTOM packaging fails under Python 3: when guarded, a serialisation failure)
                     req['serFails'] = True
                 if m in ('unser', 'ugen') and case['proto'] in LAZY_OUT:
@@ -719,6 +768,7 @@ def reference(case):
         return _REF[key]
     call = case['call']
     if call['m'] in ('raw', 'fail', 'frozen', 'mt', '#junk', '#unknown', '#doc') or \
+            (call['m'] in ('ba', 'fv') and case['proto'] == 'httpout') or \
             (call['m'] in ('unser', 'ugen') and case['proto'] in LAZY_OUT):
         return {}
     key = (case['proto'], json.dumps(call, sort_keys=True))
@@ -782,7 +832,10 @@ def oracle(case, tr, side, calls):
                 out.append(('content-length-header:' + site, 'Content-Length headers %r' % (cls,)))
     # all body chunks are bytes
     if any(not tr[i][2] for i in chunks):
-        out.append(('chunk-not-bytes:' + site, 'a body chunk is not a bytes object'))
+        if side.get('odd_chunk') == 'int':
+            out.append(('chunk-is-int:' + site, 'the body iterable yields ints: a bare bytes object is iterated as the body'))
+        else:
+            out.append(('chunk-not-bytes:' + site, 'a body chunk is not a bytes object'))
     # Content-Length, when sent, equals the number of body bytes
     if len(srs) == 1 and tr[srs[0]][3] is not None and not crashes:
         total = sum(tr[i][1] for i in chunks)
@@ -1148,6 +1201,35 @@ def gen_round4(ctx, add):
         for mode in ('empty', 'list0', 'one', 'three', 'ok', 'none'):
             for chunked in (True, False):
                 add(mkcase(proto, 'two', {'mode': mode}, cfg=dict(BASE_CFG, chunked=chunked), abort=[None, 1][chunked]), 'multi-return')
+    # settings handed to the constructor and left alone, the falsy ones in particular (0 is a legal limit: nothing may be read)
+    for proto in ('json', 'soap'):
+        doc_len = len(request_doc(mkcase(proto, 'echo', {'s': 'hi'})))
+        for mx, block in ((0, 8192), (1, 1), (0, 0), (doc_len, 0), (doc_len, 1), (doc_len - 1, 7)):
+            for cl in (None, str(doc_len)):
+                add(mkcase(proto, 'echo', {'s': 'hi'}, cfg={'chunked': mx % 2 == 0, 'max': mx, 'block': block}, cl=cl,
+                           plan=filelike(doc_len, max(block, 1)), via_ctor=True), 'ctor-settings')
+    # optional CGI variables that a server may omit when they are empty (PEP 3333); SERVER_NAME only when Host is given
+    for proto in ('http', 'httpout'):
+        add(mkcase(proto, 'echo', {}, env_del=['QUERY_STRING']), 'env-optional')
+        add(mkcase(proto, 'echo', {}, env_del=['QUERY_STRING', 'SCRIPT_NAME'], abort=1), 'env-optional')
+        add(mkcase(proto, 'echo', {}, env_del=['PATH_INFO'], expect='unknown'), 'env-optional')
+        add(mkcase(proto, 'echo', {'s': 'hi'}, env_del=['SERVER_NAME', 'SERVER_PORT'], env={'HTTP_HOST': 'example.org:81'}), 'env-optional')
+    for proto in ('soap', 'json'):
+        add(mkcase(proto, 'echo', {'s': 'hi'}, env_del=['QUERY_STRING']), 'env-optional')
+        add(mkcase(proto, 'echo', {'s': 'hi'}, env_del=['PATH_INFO', 'QUERY_STRING', 'SCRIPT_NAME']), 'env-optional')
+        add(mkcase(proto, 'echo', {'s': 'hi'}, verb='GET', env_del=['QUERY_STRING', 'CONTENT_TYPE']), 'env-optional')
+        for dels, extra in ((['PATH_INFO'], None), (['SERVER_NAME', 'SERVER_PORT'], {'HTTP_HOST': 'example.org'}), (['CONTENT_TYPE'], None)):
+            add({'kind': 'wsdl', 'wsdl': 'ok', 'proto': proto, 'cfg': dict(BASE_CFG), 'abort': None, 'env_del': dels, 'env': extra}, 'env-optional')
+        add({'kind': 'wsdl', 'wsdl': 'ok', 'proto': proto, 'cfg': dict(BASE_CFG), 'abort': None, 'wsdl_by_path': True, 'env_del': ['QUERY_STRING']},
+            'env-optional')
+    # return types written by the out protocol's to_bytes machinery: format / str_format / encoding, byte arrays, files
+    for proto in ('httpout', 'json', 'soap'):
+        for m in ('fmt', 'fmt2', 'enc', 'bal', 'fvl', 'ba', 'fv'):
+            if proto != 'httpout' and m in ('ba', 'fv', 'fvl', 'bal'):
+                continue
+            for chunked in (True, False):
+                add(mkcase(proto, m, {}, cfg=dict(BASE_CFG, chunked=chunked)), 'out-types')
+                add(mkcase(proto, m, {'s': 'gr\xfc\xdf'}, cfg=dict(BASE_CFG, chunked=chunked), abort=1), 'out-types')
     # MTOM packaging of the response (a serialisation failure when guarded, see fixes/C13-09)
     for chunked in (True, False):
         add(mkcase('soap', 'mt', {'s': 'a'}, cfg=dict(BASE_CFG, chunked=chunked)), 'round4-mtom')
@@ -1371,6 +1453,11 @@ def run(ctx):
     dflt = E['WsgiApplication'](Application([type('Probe2', (Service,), {})], 'tns.probe2', in_protocol=JsonDocument(),
                                             out_protocol=JsonDocument()))
     got = (probe.chunked, probe.max_content_length, probe.block_length, dflt.chunked, dflt.max_content_length, dflt.block_length)
+    zero = E['WsgiApplication'](Application([type('Probe3', (Service,), {})], 'tns.probe3', in_protocol=JsonDocument(),
+                                            out_protocol=JsonDocument()), chunked=True, max_content_length=0, block_length=1)
+    got_zero = (zero.max_content_length, zero.block_length)
+    if got_zero != (0, 1):
+        ctx.finding('ctor-settings', 'WsgiApplication(max_content_length=0, block_length=1) stored as %r' % (got_zero,), {'observed': list(got_zero)})
     if got != (False, 123, 45, True, 2 * 1024 * 1024, 8 * 1024):
         ctx.finding('ctor-settings', 'WsgiApplication(chunked=False, max_content_length=123, block_length=45) / defaults stored as %r' % (got,),
                     {'observed': list(got)})
@@ -1395,7 +1482,11 @@ def run(ctx):
         q = model_query(case, side, ref)
         # (MTOM: apply_mtom is Python-2 code; while its failure escapes the callable it is a T3 finding only)
         # (likewise a multi-return method returning nothing, while that escapes as StopIteration / AssertionError: C13-10)
-        if not (case['kind'] == 'rpc' and case['call']['m'] in ('mt', 'two') and any(e[0] == 'crash' for e in tr)):
+        if case['kind'] == 'rpc' and case['call']['m'] in ('ba', 'fv') and side.get('odd_chunk') == 'int':
+            pass        # ints as body chunks (HttpRpc, chunked): property oracle only
+        elif case.get('env_del') and any(e[0] == 'crash' for e in tr):
+            pass        # a missing optional CGI variable escaping as KeyError: property oracle only (fixes/C13-11)
+        elif not (case['kind'] == 'rpc' and case['call']['m'] in ('mt', 'two') and any(e[0] == 'crash' for e in tr)):
             Q.append((q, tr, case))
         ctx.case({'case': {k: v for k, v in case.items() if k != 'tag'}}, nontrivial(case, tr))
         ctx.cov['traces_validated_against_impl'] += 1
@@ -1436,7 +1527,8 @@ def run(ctx):
         d = declared_int(case)
         # (not for the user's 204: wsgiref.validate objects to the Content-Type the transport keeps, which PEP 3333 does not)
         if (case.get('cl') in (None, '') or (d is not None and d >= 0)) and not any(e[0] == 'crash' for e in tr) and \
-                not (case['kind'] == 'rpc' and case['call']['m'] == 'respond'):
+                not case.get('env_del') and \
+                not (case['kind'] == 'rpc' and case['call']['m'] in ('respond', 'ba', 'fv')):
             seen_val += 1
             if seen_val % (1 if ctx.thorough else 3) == 0 or case.get('headers') or case.get('aux'):
                 tr2, side2, _ = execute(case, validate=True)
